@@ -474,7 +474,7 @@ theorem steps_cell (cfg : Cfg) (lay : Layout) (r c cur : Nat) (cs : CellSpec) (h
   have h3 := steps_content cfg lay.pfx (r, c) ra hra' cs hok r c out
   have h4 : steps cfg ⟨.cell (r, c) (ra ++ styleAttr cs.style ++ (contentEvents lay.pfx cs.content).1) (expect cfg cs), r, c, out⟩
       [.stop (q lay.pfx nC)] = .ok ⟨.rows, r, c + 1, (r, c, expect cfg cs) :: out⟩ := by
-    have : ¬ (U32 ≤ c + 1) := by simp only [U32]; omega
+    have : satAdd c 1 = c + 1 := satAdd_eq (by simp only [U32]; omega)
     simp [steps, step, this]
   rw [List.append_assoc, List.append_assoc, steps_append_ok cfg _ _ _ _ h1, steps_append_ok cfg _ _ _ _ h2,
     steps_append_ok cfg _ _ _ _ h3, h4]
@@ -526,7 +526,7 @@ theorem steps_rows (cfg : Cfg) (lay : Layout) (s : Sheet) (cur : Nat) (hinc : In
       (fun cell hcell => hok (r, cells) (by simp) cell hcell) out
     have h3 : steps cfg ⟨.rows, r, col, (rowCells cfg r cells).reverse ++ out⟩ [.stop (q lay.pfx nRow)] =
         .ok ⟨.rows, r + 1, 0, (rowCells cfg r cells).reverse ++ out⟩ := by
-      have : ¬ (U32 ≤ r + 1) := by simp only [U32]; omega
+      have : satAdd r 1 = r + 1 := satAdd_eq (by simp only [U32]; omega)
       simp [steps, step, this]
     obtain ⟨row, h4⟩ := ih (r + 1) hrest (fun x hx => hcols x (by simp [hx]))
       (fun x hx => hok x (by simp [hx])) ((rowCells cfg r cells).reverse ++ out)
@@ -691,5 +691,171 @@ theorem lex_unique {l : List (Nat × Nat × Val)} (hp : l.Pairwise Lex) (l1 l2 :
   · intro x hx hcontra
     have := hp.2.1.1 x hx
     rcases this with h | h <;> omega
+
+/-! ### shared strings -/
+
+@[simp] theorem ln_si (p : Bool) : localName (q p nSi) = nSi := localName_q p nSi (by decide)
+@[simp] theorem ln_sst (p : Bool) : localName (q p nSst) = nSst := localName_q p nSst (by decide)
+@[simp] theorem ln_r (p : Bool) : localName (q p nR) = nR := localName_q p nR (by decide)
+@[simp] theorem ln_rph (p : Bool) : localName (q p nRPh) = nRPh := localName_q p nRPh (by decide)
+@[simp] theorem nSi_ne_nSst : (nSi = nSst) = False := eq_false (by decide)
+@[simp] theorem nSst_ne_nSi : (nSst = nSi) = False := eq_false (by decide)
+@[simp] theorem q_eq (p : Bool) (a b : Bytes) : (q p a = q p b) = (a = b) := propext (q_inj p a b)
+@[simp] theorem nSi_ne_nT : (nSi = nT) = False := eq_false (by decide)
+@[simp] theorem nT_ne_nSi : (nT = nSi) = False := eq_false (by decide)
+@[simp] theorem nSi_ne_nR : (nSi = nR) = False := eq_false (by decide)
+@[simp] theorem nR_ne_nSi : (nR = nSi) = False := eq_false (by decide)
+@[simp] theorem nSi_ne_nRPh : (nSi = nRPh) = False := eq_false (by decide)
+@[simp] theorem nRPh_ne_nSi : (nRPh = nSi) = False := eq_false (by decide)
+
+/-- one rich-text run appends its text to the buffer -/
+theorem sstLoop_run (p : Bool) (cl : Bytes) (hcl : cl = q p nSi) (rich : Option Bytes) (r : Bytes)
+    (rest : List Ev) (acc : List Bytes) :
+    sstLoop (runEvents p r ++ rest) (some (cl, .main rich false)) acc =
+      sstLoop rest (some (cl, .main (some (rich.getD [] ++ r)) false)) acc := by
+  subst hcl
+  unfold runEvents tEvents
+  by_cases hr : r = []
+  · subst hr
+    simp [sstLoop, strStep]
+  · simp [sstLoop, strStep, hr]
+
+theorem sstLoop_runs (p : Bool) (cl : Bytes) (hcl : cl = q p nSi) (runs : List Bytes) (rich : Option Bytes)
+    (rest : List Ev) (acc : List Bytes) (hne : runs ≠ []) :
+    sstLoop (runs.flatMap (runEvents p) ++ rest) (some (cl, .main rich false)) acc =
+      sstLoop rest (some (cl, .main (some (rich.getD [] ++ runs.flatten)) false)) acc := by
+  induction runs generalizing rich with
+  | nil => exact absurd rfl hne
+  | cons r rs ih =>
+    simp only [List.flatMap_cons, List.append_assoc]
+    rw [sstLoop_run p cl hcl]
+    by_cases hrs : rs = []
+    · subst hrs; simp
+    · rw [ih _ hrs]; simp [List.append_assoc]
+
+theorem sstLoop_phonetic (p : Bool) (cl : Bytes) (hcl : cl = q p nSi) (rich : Option Bytes) (ph : Option Bytes)
+    (rest : List Ev) (acc : List Bytes) :
+    sstLoop (phoneticEvents p ph ++ rest) (some (cl, .main rich false)) acc =
+      sstLoop rest (some (cl, .main rich false)) acc := by
+  subst hcl
+  cases ph with
+  | none => simp [phoneticEvents]
+  | some ph =>
+    unfold phoneticEvents tEvents
+    by_cases hp : ph = []
+    · subst hp
+      simp [sstLoop, strStep]
+    · simp [sstLoop, strStep, hp]
+
+/-- one `<si>` item contributes exactly one string: its text (the empty string for an item without text) -/
+theorem sstLoop_item (p : Bool) (it : SstItem) (rest : List Ev) (acc : List Bytes) :
+    sstLoop (renderSi p it ++ rest) none acc = sstLoop rest none (it.text :: acc) := by
+  cases it with
+  | plain s =>
+    unfold renderSi tEvents
+    by_cases hs : s = []
+    · subst hs
+      simp [sstLoop, strStep, SstItem.text]
+    · simp [sstLoop, strStep, hs, SstItem.text]
+  | emptyElem => simp [renderSi, sstLoop, strStep, SstItem.text]
+  | rich runs ph =>
+    simp only [renderSi, List.append_assoc, List.cons_append, List.nil_append]
+    rw [sstLoop]
+    simp only [ln_si, if_true]
+    by_cases hr : runs = []
+    · subst hr
+      simp only [List.flatMap_nil, List.nil_append]
+      rw [sstLoop_phonetic p _ rfl]
+      simp [sstLoop, strStep, SstItem.text]
+    · rw [sstLoop_runs p _ rfl runs none _ _ hr, sstLoop_phonetic p _ rfl]
+      simp [sstLoop, strStep, SstItem.text]
+
+theorem sstLoop_items (p : Bool) (items : List SstItem) (rest : List Ev) (acc : List Bytes) :
+    sstLoop (items.flatMap (renderSi p) ++ rest) none acc =
+      sstLoop rest none ((items.map SstItem.text).reverse ++ acc) := by
+  induction items generalizing acc with
+  | nil => simp
+  | cons it its ih =>
+    simp only [List.flatMap_cons, List.append_assoc]
+    rw [sstLoop_item, ih]
+    simp
+
+/-! ### the reader never panics (after ledger D30-a/c/d, D39) -/
+
+theorem getRow_total (s : Bytes) : (∃ v, getRow s = .ok v) ∨ (∃ e, getRow s = .err e) := by
+  unfold getRow
+  rcases getRowCol_total s with ⟨v, h⟩ | ⟨e, h⟩
+  · rw [h]; exact Or.inl ⟨_, rfl⟩
+  · rw [h]; exact Or.inr ⟨_, rfl⟩
+
+theorem getDimension_total (s : Bytes) : (∃ v, getDimension s = .ok v) ∨ (∃ e, getDimension s = .err e) := by
+  unfold getDimension
+  rcases mapParts_total (splitColon s) with ⟨v, h⟩ | ⟨e, h⟩
+  · rw [h]
+    match v with
+    | [] => exact Or.inr ⟨_, rfl⟩
+    | [p] => exact Or.inl ⟨_, rfl⟩
+    | [p, q] => exact Or.inl ⟨_, rfl⟩
+    | _ :: _ :: _ :: _ => exact Or.inr ⟨_, rfl⟩
+  · rw [h]; exact Or.inr ⟨_, rfl⟩
+
+theorem readV_total (cfg : Cfg) (attrs : Attrs) (v : Bytes) :
+    (∃ x, readV cfg attrs v = .ok x) ∨ (∃ e, readV cfg attrs v = .err e) := by
+  unfold readV
+  repeat' split
+  all_goals first | exact Or.inl ⟨_, rfl⟩ | exact Or.inr ⟨_, rfl⟩
+
+@[simp] theorem getRow_not_panic (r : Bytes) (s : String) : (getRow r = .panic s) = False := by
+  apply eq_false; intro h
+  rcases getRow_total r with ⟨v, h2⟩ | ⟨e, h2⟩ <;> rw [h] at h2 <;> cases h2
+@[simp] theorem getRow_not_fuel (r : Bytes) : (getRow r = .outOfFuel) = False := by
+  apply eq_false; intro h
+  rcases getRow_total r with ⟨v, h2⟩ | ⟨e, h2⟩ <;> rw [h] at h2 <;> cases h2
+@[simp] theorem getRowColumn_not_panic (r : Bytes) (s : String) : (getRowColumn r = .panic s) = False := by
+  apply eq_false; intro h
+  rcases getRowColumn_total r with ⟨v, h2⟩ | ⟨e, h2⟩ <;> rw [h] at h2 <;> cases h2
+@[simp] theorem getRowColumn_not_fuel (r : Bytes) : (getRowColumn r = .outOfFuel) = False := by
+  apply eq_false; intro h
+  rcases getRowColumn_total r with ⟨v, h2⟩ | ⟨e, h2⟩ <;> rw [h] at h2 <;> cases h2
+@[simp] theorem readV_not_panic (cfg : Cfg) (a : Attrs) (v : Bytes) (s : String) : (readV cfg a v = .panic s) = False := by
+  apply eq_false; intro h
+  rcases readV_total cfg a v with ⟨x, h2⟩ | ⟨e, h2⟩ <;> rw [h] at h2 <;> cases h2
+@[simp] theorem readV_not_fuel (cfg : Cfg) (a : Attrs) (v : Bytes) : (readV cfg a v = .outOfFuel) = False := by
+  apply eq_false; intro h
+  rcases readV_total cfg a v with ⟨x, h2⟩ | ⟨e, h2⟩ <;> rw [h] at h2 <;> cases h2
+@[simp] theorem getDimension_not_panic (r : Bytes) (s : String) : (getDimension r = .panic s) = False := by
+  apply eq_false; intro h
+  rcases getDimension_total r with ⟨v, h2⟩ | ⟨e, h2⟩ <;> rw [h] at h2 <;> cases h2
+@[simp] theorem getDimension_not_fuel (r : Bytes) : (getDimension r = .outOfFuel) = False := by
+  apply eq_false; intro h
+  rcases getDimension_total r with ⟨v, h2⟩ | ⟨e, h2⟩ <;> rw [h] at h2 <;> cases h2
+
+theorem step_total (cfg : Cfg) (st : St) (ev : Ev) :
+    (∃ st', step cfg st ev = .ok st') ∨ (∃ e, step cfg st ev = .err e) := by
+  unfold step
+  repeat' split
+  all_goals first | exact Or.inl ⟨_, rfl⟩ | exact Or.inr ⟨_, rfl⟩ | simp_all
+
+theorem run_total (cfg : Cfg) (evs : List Ev) (st : St) :
+    (run cfg evs st).2 = .ok () ∨ ∃ e, (run cfg evs st).2 = .err e := by
+  induction evs generalizing st with
+  | nil => simp only [run]; split <;> simp
+  | cons ev rest ih =>
+    simp only [run]
+    rcases step_total cfg st ev with ⟨st', h⟩ | ⟨e, h⟩
+    · rw [h]; simp only
+      split
+      · exact Or.inl rfl
+      · exact ih st'
+    · rw [h]; exact Or.inr ⟨_, rfl⟩
+
+theorem readerNew_total (evs : List Ev) (d : Dims) (b : Bool) :
+    (∃ v, readerNew evs d b = .ok v) ∨ (∃ e, readerNew evs d b = .err e) := by
+  induction evs generalizing d b with
+  | nil => simp only [readerNew]; split <;> exact Or.inr ⟨_, rfl⟩
+  | cons ev rest ih =>
+    simp only [readerNew]
+    repeat' split
+    all_goals first | exact Or.inl ⟨_, rfl⟩ | exact Or.inr ⟨_, rfl⟩ | exact ih _ _ | simp_all
 
 end XlsxCells
